@@ -265,11 +265,11 @@ def run_scripts(exe, driver, scripts_text, wdir, tag, levels="ABC"):
             crashed.append((sp, tp, rc, err.decode("utf-8", "replace")[-300:]))
     dprocs = []
     for sp, tp, _ in procs:
-        dprocs.append((sp, tp, subprocess.Popen(f"ulimit -s unlimited 2>/dev/null; {driver} {tp} {levels}", shell=True,
+        dprocs.append((sp, tp, subprocess.Popen(f"ulimit -s unlimited 2>/dev/null; ulimit -v 6000000; exec {driver} {tp} {levels}", shell=True,
                                                 stdout=subprocess.PIPE, stderr=subprocess.STDOUT)))
     for sp, tp, p in dprocs:
         try:
-            out, _ = p.communicate(timeout=1200)
+            out, _ = p.communicate(timeout=600)
             out = out.decode("utf-8", "replace")
         except subprocess.TimeoutExpired:
             p.kill(); out = "D-ERROR driver timeout\n"
